@@ -249,6 +249,7 @@ pub fn stream_budgets(case: &StreamCase) -> Budgets {
 /// Shared by C01 and C09: run, classify, report.
 pub fn exec_stream(ctx: &mut Ctx, case: &StreamCase, class: &str, check_geometry: bool, api: &str) {
     let opts = RunOpts {
+        graphics: false,
         check_geometry,
         budgets: stream_budgets(case),
         thread_budget: 50_000_000,
